@@ -33,9 +33,9 @@ theorem push_fits (X : Ctx) (s : St) (es : List Elem) (e : Elem) (h : Abs X s.v 
     ∃ v', Vec.push X e s = (.ok (), { s with v := v' }) ∧ Abs X v' (es ++ [e]) ∧ SamePlace s.v v' := by
   obtain ⟨b, hb, hl, hs, hlc, hel, hinit⟩ := h.alloc hd
   have hroom' : s.v.len < s.v.cap := by omega
-  have hrun := push_pre_run X.env (hsOf s.v s.sys.allocIdx)
   have hL : (hsOf s.v s.sys.allocIdx).L = s.v.len := by simp [GS.L, hsOf, hd]
   have hC : (hsOf s.v s.sys.allocIdx).C = s.v.cap := by simp [GS.C, hsOf, hd]
+  have hrun := push_pre_run X.env (hsOf s.v s.sys.allocIdx) (by rw [hL, hC]; omega)
   have hpg : pushGrow X.env (hsOf s.v s.sys.allocIdx) = (.ok (), hsOf s.v s.sys.allocIdx) := by
     unfold pushGrow
     rw [if_neg (by rw [hL, hC]; omega)]
